@@ -32,6 +32,7 @@ type SelftestEntry struct {
 	} `json:"edits,omitempty"`
 	Functions []string `json:"functions"`        // functions to re-verify
 	Expect    []string `json:"expect"`           // obligation names (prefix match); empty: any obligation of the functions
+	ReplaceAll bool    `json:"replace_all,omitempty"` // replace every occurrence of old (for renames)
 	Engine    string   `json:"engine,omitempty"` // "" = contracts; "frame" = frame checker
 	Note      string   `json:"note,omitempty"`
 }
@@ -89,9 +90,15 @@ func (e *SelftestEntry) overlay(repo string) (map[string][]byte, error) {
 			cur = b
 		}
 		if n := strings.Count(string(cur), d.old); n != 1 {
-			return nil, fmt.Errorf("edit anchor occurs %d times in %s (the corpus entry no longer applies to this tree)", n, d.file)
+			if !(e.ReplaceAll && n > 1) {
+				return nil, fmt.Errorf("edit anchor occurs %d times in %s (the corpus entry no longer applies to this tree)", n, d.file)
+			}
 		}
-		ov[path] = []byte(strings.Replace(string(cur), d.old, d.new, 1))
+		n := 1
+		if e.ReplaceAll {
+			n = -1
+		}
+		ov[path] = []byte(strings.Replace(string(cur), d.old, d.new, n))
 	}
 	return ov, nil
 }
